@@ -25,8 +25,10 @@ LEVEL_TEXT = ('static analysis: (D1+D2) skgenome.intersect.idx_ranges is abstrac
               ' value / summary(str -> join_strings, float -> nanmedian, else first_of, non-callable -> constant); (D5) trim mode clips start '
               'from below by the query start and end from above by the query end on a copy, other modes return rows unchanged; (D6) '
               'by_shared_chroms interpreted on 84 literal table pairs: every chromosome of the query table is paired with exactly the other '
-              "table's rows on that chromosome, or with nothing (kept iff keep_empty). Does not decide the row sets of arbitrary tables beyond "
-              'predicate/side agreement (start column sorted is the premise).')
+              "table's rows on that chromosome, or with nothing (kept iff keep_empty); (D7) by_ranges (outer / inner / trim) and iter_slices on "
+              'literal tables with chromosomes absent from either side and index labels that are not positions: one result per query range, in '
+              'order, holding exactly the overlapping / contained rows (their labels for iter_slices). Does not decide the row sets of arbitrary '
+              'tables beyond predicate/side agreement (start column sorted is the premise).')
 TECHNIQUE = "abstract interpretation with symbolic sorted columns (searchsorted as counting atoms, masks as predicate sets); index-kind lint; return-kind rule"
 
 IDX = "skgenome.intersect.idx_ranges"
